@@ -281,6 +281,41 @@ transaction {
 			cp("refCopy", "let r5 = r3", 5, 3),
 			destroyV(6))}}}
 
+	// references to the attachment every resource carries, taken before an in-memory move of the
+	// base or of an enclosing resource (the moves that do not change the storage address are the
+	// ones where only the nested walk of the invalidation reaches the attachment)
+	attOuter := st("refAtt", "let r40 = C.ida(x1[C.A])!", Cmd{Op: CRefVar, R: 40, X: 1})
+	attInner := st("refAtt", "let r41 = (C.anyId(x1.arr[0][C.A]) as! &C.A?)!", Cmd{Op: CRefStep, R: 41, B: Base{X: 1}, Sl: Slot{Kind: SlArr, I: 0}})
+	useA := func(r int64) Stmt { return st("useAtt", "log("+rname(r)+".k)", Cmd{Op: CUse, R: r, K: UAtt}) }
+	nestA := []Stmt{mk(1, false, false, 1), mk(2, false, true, 2), appendTo(1, 2), attOuter, attInner, useA(40), useA(41)}
+	out["c04_attachment_var_to_var"] = &History{Txs: []*Tx{{Stmts: cat(nestA,
+		st("moveVar", "var x6: @{C.I} <- x1", xfer(pvar(6), splace(pvar(1), false))),
+		useA(40), destroyV(6))}}}
+	out["c04_attachment_nested_enclosing_moved"] = &History{Txs: []*Tx{{Stmts: cat(nestA,
+		st("moveVar", "var x6: @{C.I}? <- x1", xfer(pvar(6), splace(pvar(1), false))),
+		useA(41), destroyV(6))}}}
+	out["c04_attachment_into_array_write"] = &History{Txs: []*Tx{{Stmts: cat(nestA,
+		mk(7, false, false, 7), appendTo(7, 1),
+		st("attSetTag", "r41.setBaseTag(42)", Cmd{Op: CSetTag, B: Base{Ref: true, X: 41}, T: 42}),
+		destroyV(7))}}}
+	out["c04_attachment_function_argument"] = &History{Txs: []*Tx{{Stmts: cat(nestA,
+		mk(7, false, false, 7),
+		st("forceOpt", "x7.forceOpt(<-x1)", xfer(pchild(Base{X: 7}, Slot{Kind: SlOpt}), splace(pvar(1), false))),
+		st("attBaseRef", "let r8 = r40.baseRef()", Cmd{Op: CRefCopy, R: 8, R0: 40}),
+		destroyV(7))}}}
+	out["c04_attachment_element_removed"] = &History{Txs: []*Tx{{Stmts: cat(nestA,
+		st("arrRemove", "var x6: @{C.I} <- x1.arr.remove(at: 0)", xfer(pvar(6), splace(pchild(Base{X: 1}, Slot{Kind: SlArr, I: 0}), false))),
+		useA(40),
+		st("useAtt", "log(r41.baseUuid())", Cmd{Op: CUse, R: 41, K: UUuid}),
+		destroyV(6), destroyV(1))}}}
+	out["c04_attachment_stays_usable"] = &History{Txs: []*Tx{{Stmts: cat(nestA,
+		st("attSetTag", "r41.setBaseTag(42)", Cmd{Op: CSetTag, B: Base{Ref: true, X: 41}, T: 42}),
+		st("setTag", "x1.setTag(43)", Cmd{Op: CSetTag, B: Base{X: 1}, T: 43}),
+		useA(40), useA(41),
+		st("attBaseRef", "let r8 = r41.baseRef()", Cmd{Op: CRefCopy, R: 8, R0: 41}),
+		st("use:UShow", "log(C.show(r8))", Cmd{Op: CUse, R: 8, K: UShow}),
+		destroyV(1))}}}
+
 	// storage reference after the path was emptied / re-filled with another type
 	out["c04_storage_ref_deref_fails"] = &History{Txs: []*Tx{{Stmts: []Stmt{
 		mk(1, false, false, 1), saveV(1, 0),
